@@ -65,13 +65,54 @@ class ClassInfo:
         return f'<class {self.key}>'
 
 
+_FLIP_CMP = {ast.Lt: ast.Gt, ast.Gt: ast.Lt, ast.LtE: ast.GtE,
+             ast.GtE: ast.LtE, ast.Eq: ast.Eq, ast.NotEq: ast.NotEq,
+             ast.Is: ast.Is, ast.IsNot: ast.IsNot}
+
+
+class _Canonical(ast.NodeTransformer):
+    '''Behaviour-preserving normal form applied to every parsed module, so
+    that the rules see ONE spelling of equivalent code:
+      <constant> op x          ->  x op' <constant>     (single comparison)
+      b if not c else a        ->  a if c else b
+      if not c: B else: A      ->  if c: A else: B       (plain else only)
+    Positions are kept, so reports still point at the source.'''
+
+    def visit_Compare(self, node):
+        self.generic_visit(node)
+        if len(node.ops) == 1 and isinstance(node.left, ast.Constant) and \
+                not isinstance(node.comparators[0], ast.Constant) and \
+                type(node.ops[0]) in _FLIP_CMP:
+            node.left, node.comparators[0] = node.comparators[0], node.left
+            node.ops[0] = _FLIP_CMP[type(node.ops[0])]()
+        return node
+
+    def visit_IfExp(self, node):
+        self.generic_visit(node)
+        if isinstance(node.test, ast.UnaryOp) and isinstance(node.test.op,
+                                                             ast.Not):
+            node.test = node.test.operand
+            node.body, node.orelse = node.orelse, node.body
+        return node
+
+    def visit_If(self, node):
+        self.generic_visit(node)
+        if isinstance(node.test, ast.UnaryOp) and isinstance(
+                node.test.op, ast.Not) and node.orelse and not (
+                    len(node.orelse) == 1 and isinstance(node.orelse[0],
+                                                         ast.If)):
+            node.test = node.test.operand
+            node.body, node.orelse = node.orelse, node.body
+        return node
+
+
 class Module:
     def __init__(self, name, path, relpath, src):
         self.name = name
         self.path = path
         self.relpath = relpath
         self.src = src
-        self.tree = ast.parse(src, filename=path)
+        self.tree = _Canonical().visit(ast.parse(src, filename=path))
         self.digest = hashlib.sha256(src.encode('utf-8')).hexdigest()
         self.functions = {}     # qual -> FuncInfo
         self.classes = {}       # qual -> ClassInfo
